@@ -17,6 +17,9 @@ def one(rid):
         return rid, "skipped (patch does not apply)", ""
     if "DETECTED BY: NONE" in out:
         return rid, "silent", ""
+    if ": exit=1" not in out and ": exit=2" in out:
+        # no violation reported; the checks say they cannot decide this tree (ANALYSIS-ERROR, exit 2)
+        return rid, "undecided (analysis error, no violation reported)", out[-600:]
     return rid, "FALSE-ALARM", out[-1500:]
 
 
@@ -33,6 +36,8 @@ def main():
             print(f"{rid}: {st}")
             if st == "FALSE-ALARM":
                 bad += 1
+                print(info)
+            elif st.startswith("undecided"):
                 print(info)
     print(f"refaccheck: {len(ids)} refactorings, {bad} false alarms")
     return 1 if bad else 0
